@@ -136,6 +136,13 @@ func tamperAndCheck(t *rapid.T, h *sim.History, proposer *sim.Replica, blk *type
 	if !interesting && rapid.IntRange(0, 3).Draw(t, "tamperPlain") != 0 {
 		return true
 	}
+	ops := tamperOps(t, h, v, blk)
+	return offerTampered(t, h, v, blk, ops, interesting)
+}
+
+// tamperOps builds the complete operator set for the honest block blk as seen by the node v (at the parent of blk).
+func tamperOps(t *rapid.T, h *sim.History, v *sim.Replica, blk *types.Block) []tamper {
+	w := h.W
 	prev := v.Head()
 	pos := rapid.IntRange(0, 255).Draw(t, "bitPos")
 	var other *types.Block
@@ -402,6 +409,14 @@ func tamperAndCheck(t *rapid.T, h *sim.History, proposer *sim.Replica, blk *type
 					return true
 				})
 			}
+			// (all of them gone: without the differential that backs the single drop with everything recomputed)
+			if n > 1 && rec != "+txhash+cid+bloom" {
+				add("Body", "drop-all-txs"+rec, func(b *types.Block) bool {
+					b.Body.Transactions = nil
+					fix(b)
+					return true
+				})
+			}
 			// reordering with ALL commitments recomputed yields a different but consistent block when the two
 			// transactions commute (tx order is the proposer's choice), so it is not a negative
 			if n > 1 && rec != "+txhash+cid+bloom" {
@@ -446,19 +461,26 @@ func tamperAndCheck(t *rapid.T, h *sim.History, proposer *sim.Replica, blk *type
 		}
 	}
 
+	return ops
+}
+
+// offerTampered applies every operator to a deep copy of blk and offers the copy to v (see tamperAndCheck).
+func offerTampered(t *rapid.T, h *sim.History, v *sim.Replica, blk *types.Block, ops []tamper, interesting bool) bool {
+	calls := drawCallHistory(t, v, blk)
 	before := image(v.DB)
 	headBefore, rootBefore, idRootBefore := v.Head().Hash(), v.AppState.State.Root(), v.AppState.IdentityState.Root()
 	verBefore := v.AppState.State.Version()
 	cells := 0
-	for _, op := range ops {
+	for i, op := range ops {
 		c := clone(t, blk)
 		if !op.apply(c) {
 			continue
 		}
-		// (a header with two parts keeps the hash of its proposed part: compare the headers' encodings too)
+		// (a header with two parts keeps the hash of its proposed part: compare the headers' encodings too; a reordered
+		// body has the length of the original: compare the bodies' encodings)
 		hb1, _ := c.Header.ToBytes()
 		hb2, _ := blk.Header.ToBytes()
-		if c.Hash() == blk.Hash() && len(c.Body.Transactions) == len(blk.Body.Transactions) && bytes.Equal(hb1, hb2) {
+		if c.Hash() == blk.Hash() && bytes.Equal(c.Body.ToBytes(), blk.Body.ToBytes()) && bytes.Equal(hb1, hb2) {
 			evid.Count("tamper.discarded_identical")
 			continue
 		}
@@ -466,8 +488,13 @@ func tamperAndCheck(t *rapid.T, h *sim.History, proposer *sim.Replica, blk *type
 		cells++
 		cell := op.field + "/" + op.op
 		evid.Count("cell." + cell)
-		desc := fmt.Sprintf("%s of %s", cell, sim.BlockDesc(blk))
-		if err := v.Validate(c); err == nil {
+		// what this node was asked before (the honest original validated, as a node does with the proposal of the
+		// round), and through which entry shape the copy arrives (see order_test.go)
+		callsBefore := calls.before(t, i)
+		shape := calls.shape(i)
+		calls.note(c, shape)
+		desc := fmt.Sprintf("%s of %s [earlier calls on this node at this head: %s; the copy arrives with %s]", cell, sim.BlockDesc(blk), callsBefore, shape)
+		if err := validateVia(v, c, shape); err == nil {
 			// A body without one of its transactions and with ALL commitments recomputed is a different but
 			// consistent block when that transaction leaves no trace in the resulting state (e.g. a free
 			// transaction of an account that the same, validation-finishing block clears as dust): then every
@@ -479,7 +506,7 @@ func tamperAndCheck(t *rapid.T, h *sim.History, proposer *sim.Replica, blk *type
 			}
 			t.Fatalf("tampered block accepted by validation: %s\nhistory:\n%s", desc, h.Summary())
 		}
-		if err := v.AddBlock(c); err == nil {
+		if err := addVia(v, c, shape); err == nil {
 			t.Fatalf("tampered block inserted: %s\nhistory:\n%s", desc, h.Summary())
 		}
 		if v.Head().Hash() != headBefore || v.AppState.State.Root() != rootBefore || v.AppState.IdentityState.Root() != idRootBefore || v.AppState.State.Version() != verBefore {
